@@ -1187,9 +1187,19 @@ def r6_9(ctx):
         if isinstance(c, ast.Call) and norm(c.func) in ("cls", "Color") and c.args:
             n += 1
             a0 = c.args[0]
-            ok = isinstance(a0, ast.Name) and a0.id in normalised and a0.id not in originals
-            ctx.check(ok, f.fq, short(c), f"{m.relpath}:{c.lineno}", f"colour named `{norm(a0)}` (normalised spelling)",
-                      f"`{short(c)}` names the colour `{norm(a0)}`, not the lower-cased spelling the other branches use: Color('#FF0000') != Color('#ff0000') although they are the same colour, and str(style) no longer parses back to an equal style")
+            where = f"{m.relpath}:{c.lineno}"
+            used = {x.id for x in ast.walk(a0) if isinstance(x, ast.Name)}
+            if isinstance(a0, ast.Name) and a0.id in normalised and a0.id not in originals:
+                ctx.ok(where, f"colour named `{norm(a0)}` (normalised spelling)", f.fq)
+            elif used & originals:
+                ctx.violation(f.fq, short(c), where, f"`{short(c)}` names the colour `{norm(a0)}`, not the lower-cased spelling the other branches use: Color('#FF0000') != Color('#ff0000') although they are the same colour, and str(style) no longer parses back to an equal style")
+            else:
+                # a name rebuilt from the parsed numbers (triplet.rgb, triplet.hex, f"color({number})") is canonical by construction
+                numeric = {x.targets[0].id for x in walk_local(f.node) if isinstance(x, ast.Assign) and len(x.targets) == 1 and isinstance(x.targets[0], ast.Name) and isinstance(x.value, ast.Call) and norm(x.value.func) in ("ColorTriplet", "int")}
+                if used and used <= numeric and not isinstance(a0, ast.Name):
+                    ctx.ok(where, f"colour named `{norm(a0)}` (rebuilt from the parsed numbers)", f.fq)
+                else:
+                    raise AnalysisError(f"Color.parse: `{short(c)}` names the colour `{norm(a0)}`; cannot tell whether that is a normalised spelling")
     ctx.floor(n, 4, "Color constructions in Color.parse")
 
 
@@ -1199,4 +1209,117 @@ def r6_10(ctx):
     borrow(ctx, r4_5, "R4.5", "R6.10", " [normalising a definition does not change what it parses to: case is folded in the attribute / colour words only, never in a link URL]")
 
 
-RULES = [r6_1, r6_2, r6_3, r6_4, r6_7, r6_5, r6_6, r6_8, r6_9, r6_10]
+def _sub_accepts(sub, ch: str) -> bool:
+    """can a string matched by the sub-pattern contain `ch`?"""
+    from .. import regexast as rxa
+    sre_c = rxa.sre_c
+    for op, av in sub:
+        if op in (sre_c.MAX_REPEAT, sre_c.MIN_REPEAT):
+            if _sub_accepts(av[2], ch):
+                return True
+        elif op is sre_c.SUBPATTERN:
+            if _sub_accepts(av[3], ch):
+                return True
+        elif op is sre_c.BRANCH:
+            if any(_sub_accepts(a, ch) for a in av[1]):
+                return True
+        elif op is sre_c.AT:
+            continue
+        else:
+            r = rxa.class_accepts(op, av, ch)
+            if r is None:
+                raise AnalysisError("RE_COLOR: an item of the pattern is not a character class this rule reads")
+            if r:
+                return True
+    return False
+
+
+def r6_11(ctx):
+    ctx.rule("R6.11", "a colour's name is one word of a style definition: Style.__str__ writes Color.name verbatim and Style.parse splits the definition on white space. Where RE_COLOR lets a group contain white space (rgb(r, g, b)), the branch of Color.parse that handles that group must not keep the user's text as the name, or str() of the style cannot be parsed back and the same colour spelt with and without spaces compares unequal")
+    from .. import regexast as rxa
+    cm = ctx.repo.mod("color")
+    rx = rxa.compile_call(cm.global_assign("RE_COLOR"))
+    if rx is None:
+        raise AnchorVanished("color.RE_COLOR not found")
+    sp = rxa.parse_call(rx)
+    f = ctx.repo.fn("color:Color.parse")
+    m = f.module
+    # premise: the name is written verbatim by Style.__str__
+    st = ctx.repo.fn("style:Style.__str__")
+    if not any(isinstance(n, ast.Attribute) and n.attr == "name" and "color" in norm(n.value) for n in walk_local(st.node)):
+        raise AnalysisError("Style.__str__ no longer writes Color.name; the premise of this rule changed")
+    groups = None
+    for n in walk_local(f.node):
+        if isinstance(n, ast.Assign) and isinstance(n.targets[0], ast.Tuple) and isinstance(n.value, ast.Call) and norm(n.value.func).endswith(".groups"):
+            groups = [norm(e) for e in n.targets[0].elts]
+    if groups is None or len(groups) != rxa.group_count(sp):
+        raise AnalysisError("Color.parse: the groups of RE_COLOR are not unpacked into one name each")
+    spacey = []
+    for i, g in enumerate(groups, 1):
+        sub = rxa.group_subpattern(sp, i)
+        if sub is not None and any(_sub_accepts(sub, c) for c in " \t"):
+            spacey.append(g)
+    if not spacey:
+        ctx.ok(f"{m.relpath}:{rx.lineno}", "no group of RE_COLOR admits white space", "color:RE_COLOR")
+        return
+    parents = {}
+    for p_ in ast.walk(f.node):
+        for fld in ("body", "orelse"):
+            for c_ in getattr(p_, fld, []) if isinstance(getattr(p_, fld, None), list) else []:
+                parents[id(c_)] = (p_, fld)
+    sd_raw = {}
+    for n in walk_local(f.node):
+        if isinstance(n, ast.Assign) and len(n.targets) == 1 and isinstance(n.targets[0], ast.Name):
+            sd_raw.setdefault(n.targets[0].id, []).append(n.value)
+    pname = f.params[1] if len(f.params) > 1 else None
+    n_inst = 0
+    for g in spacey:
+        for ret in walk_local(f.node):
+            if not (isinstance(ret, ast.Return) and isinstance(ret.value, ast.Call) and norm(ret.value.func) in ("cls", "Color")):
+                continue
+            # the innermost block holding the return: does it read the group?
+            blk_owner = parents.get(id(ret))
+            node_ = ret
+            reads = False
+            while blk_owner is not None:
+                owner, fld = blk_owner
+                block = getattr(owner, fld)
+                if any(isinstance(x, ast.Name) and x.id == g and isinstance(x.ctx, ast.Load) for b in block for x in ast.walk(b)):
+                    reads = True
+                    break
+                if isinstance(owner, ast.FunctionDef):
+                    break
+                node_ = owner
+                blk_owner = parents.get(id(owner))
+                # an elif chain: owner sits in the orelse of the previous If, keep climbing only through try/with wrappers
+                if isinstance(owner, ast.If):
+                    break
+            if not reads:
+                continue
+            n_inst += 1
+            call = ret.value
+            name_arg = call.args[0] if call.args else next((k.value for k in call.keywords if k.arg == "name"), None)
+            where = f"{m.relpath}:{ret.lineno}"
+            if name_arg is None:
+                raise AnalysisError(f"Color.parse: `{short(ret)}` builds a colour without a name")
+            raw_names = set()
+            for x in ast.walk(name_arg):
+                if isinstance(x, ast.Name):
+                    if x.id == g or x.id == pname:
+                        raw_names.add(x.id)
+                    for d in sd_raw.get(x.id, []):
+                        dn = norm(d)
+                        if x.id != pname and pname and dn in (f"{pname}.lower().strip()", f"{pname}.strip().lower()", f"{pname}.lower()", f"{pname}.strip()", pname):
+                            raw_names.add(x.id)
+            if raw_names:
+                # is the raw text cleaned of white space anywhere?
+                cleaned = any(isinstance(c, ast.Call) and ((isinstance(c.func, ast.Attribute) and c.func.attr in ("replace", "translate", "split", "sub")) or norm(c.func) in ("re.sub",)) and any(isinstance(y, ast.Name) and y.id in raw_names | {pname} for y in ast.walk(c)) and not (isinstance(c.func, ast.Attribute) and c.func.attr == "split" and norm(c.func.value) == g) for c in walk_local(f.node))
+                if cleaned:
+                    raise AnalysisError(f"Color.parse: the name `{norm(name_arg)}` comes from the user's text, which is also rewritten somewhere in parse(); cannot tell whether white space survives in the name")
+                ctx.violation(f.fq, short(ret), where, f"the `{g}` group of RE_COLOR admits white space and this branch keeps the text as typed for the colour's name (`{norm(name_arg)}`): str(Style(color='rgb(1, 2, 3)')) is 'rgb(1, 2, 3)', which Style.parse reads as three words and rejects; Color.parse('rgb(1, 2, 3)') != Color.parse('rgb(1,2,3)')")
+            else:
+                ctx.ok(where, f"the name of a `{g}` colour is rebuilt (`{norm(name_arg)}`), not the text as typed", f.fq)
+    ctx.floor(n_inst, 1, "colour constructions in the branch of a white-space admitting group of RE_COLOR")
+
+
+RULES = [r6_1, r6_2, r6_3, r6_4, r6_7, r6_5, r6_6, r6_8, r6_9, r6_10, r6_11]
